@@ -1,34 +1,4 @@
-/-
-Tier K: closed checks of the regenerated tables (`Gen/*`, through `T.*`) against the ISO tables of
-the specification side — format / version information, symbol size. Each `…Ok : Bool` is evaluated by the kernel (`decide +kernel`).
-One module per concern, so that a damaged table breaks only the obligations that depend on it.
--/
-import FastQr.Model.Basic
-import FastQr.Spec.IsoTables
-import FastQr.Spec.IsoExtra
-import FastQr.Spec.BCH
-import FastQr.Spec.GF256
-import FastQr.Spec.Capacity
-
-namespace FastQr.Finite
-open FastQr
-
-/-! ### format / version information (C04) -/
-def formatOk : Bool :=
-  ECL.all.all fun l => (List.range 8).all fun m => T.formatInfo l m == Spec.BCH.format15 l m
-theorem formatOk_true : formatOk = true := by decide +kernel
-
-def versionInfoOk : Bool :=
-  (List.range 40).all fun v => T.versionInfo v == (if v < 6 then 0 else Spec.BCH.version18 (v + 1))
-theorem versionInfoOk_true : versionInfoOk = true := by decide +kernel
-
-def sizeOk : Bool := (List.range 40).all fun v => T.size v == 17 + 4 * (v + 1)
-theorem sizeOk_true : sizeOk = true := by decide +kernel
-
-/-- the 32 format words are pairwise distinct (so the format information identifies level and mask) -/
-def formatInjOk : Bool :=
-  let ws := ECL.all.flatMap fun l => (List.range 8).map fun m => Spec.BCH.format15 l m
-  ws.eraseDups.length == 32
-theorem formatInjOk_true : formatInjOk = true := by decide +kernel
-
-end FastQr.Finite
+/- aggregator: format word, version word and size tables, each in its own module -/
+import FastQr.Finite.TablesFormatWord
+import FastQr.Finite.TablesVersionWord
+import FastQr.Finite.TablesSize
